@@ -3,25 +3,28 @@
  * reference schedule: last (re)start + k * period. */
 #include "node_common.h"
 
-enum { M_PREOP = 2, M_OP = 3, M_STOP = 4 };
+enum { M_INIT = 1, M_PREOP = 2, M_OP = 3, M_STOP = 4 };
 static struct { uint8_t mode; uint16_t period, rem; int16_t apptmr; } M;
 static uint8_t NID; static uint32_t TPM;   /* ticks per ms */
 
 enum { E_TICK, E_SDO_HB0, E_SDO_HB1, E_SDO_HB2, E_SDO_HB3, E_API_HB0, E_API_HB2, E_API_HB3, E_NMT_START, E_NMT_STOP, E_NMT_PREOP, E_NMT_RESETCOM, E_NMT_RESETNODE,
-       E_EVT0, E_EVT2, E_INH0, E_INH2, E_TYPE254, E_SYNCID_ON, E_SYNCID_OFF, E_CYCLE0, E_CYCLE2, E_TRIG, E_WRITE_ASYNC, E_APP_CREATE, E_APP_DELETE, E_HBCONS_FRAME, E_HBC_WRITE, E_PDO_OFF, E_PDO_ON, E_N };
+       E_EVT0, E_EVT2, E_INH0, E_INH2, E_TYPE254, E_SYNCID_ON, E_SYNCID_OFF, E_CYCLE0, E_CYCLE2, E_TRIG, E_WRITE_ASYNC, E_APP_CREATE, E_APP_DELETE, E_HBCONS_FRAME, E_HBC_WRITE, E_PDO_OFF, E_PDO_ON, E_NODE_START, E_N };
 static const char *const EN[] = { "tick", "SDO 1017h=0", "SDO 1017h=1", "SDO 1017h=2", "SDO 1017h=3", "API 1017h=0", "API 1017h=2", "API 1017h=3", "NMT start", "NMT stop", "NMT pre-op", "NMT reset com", "NMT reset node",
        "SDO 1800h:5=0", "SDO 1800h:5=2", "SDO 1800h:3=0", "SDO 1800h:3=20", "SDO 1800h:2=254", "SDO 1005h producer on", "SDO 1005h producer off", "SDO 1006h=0", "SDO 1006h=2000us", "COTPdoTrigPdo(0)", "write async object",
-       "app COTmrCreate", "app COTmrDelete", "heartbeat of monitored node", "SDO 1016h:1 rewrite", "SDO 1800h:1 invalid", "SDO 1800h:1 valid" };
+       "app COTmrCreate", "app COTmrDelete", "heartbeat of monitored node", "SDO 1016h:1 rewrite", "SDO 1800h:1 invalid", "SDO 1800h:1 valid", "CONodeStart" };
 
 static void app_cb(void *p) { (void)p; w_cb(CB_USER, 1, 0, 0); }
-static const char *cfg_name(int c) { static const char *const n[] = { "1kHz hb=2ms", "1kHz hb=0", "100Hz hb=20ms", "1kHz hb=2ms node 10 OPERATIONAL", "1kHz hb=0, TPDO event time 1 ms, OPERATIONAL", "1kHz hb=2ms, timer pool of 3 (exactly sized)" }; return n[c]; }
+static const char *cfg_name(int c) { static const char *const n[] = { "1kHz hb=2ms", "1kHz hb=0", "100Hz hb=20ms", "1kHz hb=2ms node 10 OPERATIONAL", "1kHz hb=0, TPDO event time 1 ms, OPERATIONAL", "1kHz hb=2ms, timer pool of 3 (exactly sized)", "1kHz hb=0, node initialised but not started", "1kHz hb=2ms, node initialised but not started" }; return n[c]; }
 
 static int build(int cfg)
 {
     nc_defaults();
     NC.freq = cfg == 2 ? 100 : 1000; TPM = cfg == 2 ? 10 : 1;    /* at 100 Hz the harness uses 10 ms units: "1 ms" below means 10 ms */
     NC.node_id = cfg == 3 ? 10 : 1; NID = NC.node_id;
-    NC.hbprod = 1; NC.hb_time = (uint16_t)((cfg == 1 || cfg == 4 ? 0 : 2) * TPM);
+    NC.hbprod = 1; NC.hb_time = (uint16_t)((cfg == 1 || cfg == 4 || cfg == 6 ? 0 : 2) * TPM);
+    /* cfg 6, 7: the application writes 1017h between CONodeInit and CONodeStart: nothing is demanded of the frames before boot-up, afterwards the schedule is
+     * last write + k * period like everywhere else */
+    NC.no_start = (cfg >= 6);
     NC.n_hbc = 1; NC.hbc[0].node = 9; NC.hbc[0].time = (uint16_t)(2 * TPM);
     NC.sync = 1; NC.sync_id = 0x80; NC.sync_cycle = 0;
     NC.n_tpdo = 1; NC.tpdo[0].present = 1; NC.tpdo[0].cobid = 0x40000180u + NID; NC.tpdo[0].type = 254; NC.tpdo[0].nmap = 1; NC.tpdo[0].map[0] = NC_MAP(0x2100, 0, 8);
@@ -35,9 +38,9 @@ static int build(int cfg)
     nc_build();
     (void)CONodeGetErr(&Node);
     memset(&M, 0, sizeof M);
-    M.mode = NC.operational ? M_OP : M_PREOP; M.period = (uint16_t)(cfg == 1 || cfg == 4 ? 0 : 2); M.rem = M.period; M.apptmr = -1;
+    M.mode = NC.no_start ? M_INIT : NC.operational ? M_OP : M_PREOP; M.period = (uint16_t)(cfg == 1 || cfg == 4 || cfg == 6 ? 0 : 2); M.rem = M.period; M.apptmr = -1;
     W_REG(M);
-    return E_N;
+    return cfg >= 6 ? E_N : E_N - 1;
 }
 static const char *ev_name(int e) { return EN[e]; }
 
@@ -55,6 +58,8 @@ static int step(int e)
 {
     static const uint8_t CODE[] = { 0, 0, 127, 5, 4 };
     int expect = 0; uint32_t r;
+    /* before boot-up there is no SDO and no NMT service; frames a due producer timer sends or does not send in INIT are not judged */
+    if (M.mode == M_INIT && ((e >= E_SDO_HB0 && e <= E_SDO_HB3) || (e >= E_NMT_START && e <= E_CYCLE2) || e == E_HBC_WRITE || e == E_PDO_OFF || e == E_PDO_ON || e == E_HBCONS_FRAME)) return MC_SKIP;
     switch (e) {
     case E_TICK: if (M.period) { M.rem--; if (M.rem == 0) { expect = 1; M.rem = M.period; } } w_tick(&Node, 1); break;
     case E_SDO_HB0: case E_SDO_HB1: case E_SDO_HB2: case E_SDO_HB3: {
@@ -84,6 +89,7 @@ static int step(int e)
     case E_HBC_WRITE: if (M.mode == M_STOP) return MC_SKIP; (void)nc_sdo_write(0x1016, 1, 0, 4); (void)nc_sdo_write(0x1016, 1, (9u << 16) | (2 * TPM), 4); break;
     case E_PDO_OFF: if (M.mode == M_STOP) return MC_SKIP; (void)nc_sdo_write(0x1800, 1, 0xC0000180u + NID, 4); break;
     case E_PDO_ON:  if (M.mode == M_STOP) return MC_SKIP; (void)nc_sdo_write(0x1800, 1, 0x40000180u + NID, 4); break;
+    case E_NODE_START: if (M.mode != M_INIT) return MC_SKIP; M.mode = M_PREOP; CONodeStart(&Node); break;
     default: break;
     }
     (void)CONodeGetErr(&Node);
@@ -91,10 +97,12 @@ static int step(int e)
     {   /* heartbeat frames of this step (boot-up frames of a reset are not heartbeats) */
         int n = 0;
         for (int i = 0; i < OBS.ntx; i++) if (OBS.tx[i].id == 0x700u + NID) {
-            if ((e == E_NMT_RESETCOM || e == E_NMT_RESETNODE) && OBS.tx[i].dlc == 1 && OBS.tx[i].d[0] == 0) continue;
+            if ((e == E_NMT_RESETCOM || e == E_NMT_RESETNODE || e == E_NODE_START) && OBS.tx[i].dlc == 1 && OBS.tx[i].d[0] == 0) continue;
+            if (M.mode == M_INIT) continue;
             n++;
             if (OBS.tx[i].dlc != 1 || OBS.tx[i].d[0] != CODE[M.mode]) mc_fail("hb-content", "heartbeat frame DLC %d data %02X in NMT mode %d (expected %02X)", OBS.tx[i].dlc, OBS.tx[i].d[0], M.mode, CODE[M.mode]);
         }
+        if (M.mode == M_INIT) expect = 0;
         if (n < expect) mc_fail("hb-missing", "no heartbeat although the period of %u tick(s) elapsed", M.period);
         else if (n > expect) mc_fail("hb-unexpected", "%d heartbeat frame(s) on '%s', expected %d (period %u, %u tick(s) remaining)", n, EN[e], expect, M.period, M.rem);
     }
@@ -102,5 +110,5 @@ static int step(int e)
     return MC_OK;
 }
 
-static const mc_harness H = { "C10", "c10", 6, cfg_name, build, ev_name, step, 6, 8 };
+static const mc_harness H = { "C10", "c10", 8, cfg_name, build, ev_name, step, 6, 8 };
 int main(int argc, char **argv) { return mc_main(argc, argv, &H); }
